@@ -505,6 +505,15 @@ class Interp:
             if key not in self.const_pool:
                 self.const_pool[key] = Enum(v["variant"], ()) if "variant" in v else Int(bv.const(int(v["ref_int"]), v["bits"]))
             return Ref(key, ())
+        if "ref_struct" in v:
+            key = ("const", "struct", v.get("path"), tuple((f_["n"], f_["v"]) for f_ in v["ref_struct"]))
+            if key not in self.const_pool:
+                fs_ = [Int(bv.const(int(f_["v"]), f_["bits"])) for f_ in v["ref_struct"]]
+                if (v.get("path") or "").endswith("ops::RangeInclusive") and len(fs_) >= 2:
+                    self.const_pool[key] = Opaque("rangeincl", (fs_[0].bits, fs_[1].bits))
+                else:
+                    self.const_pool[key] = Agg(fs_)
+            return Ref(key, ())
         if "static" in v:
             return Ref(("static", v["static"]), ())
         return Opaque("const")
@@ -1029,6 +1038,15 @@ class Interp:
                     caller = st.frames[-1]
                     if fr.transform is not None:
                         ret = fr.transform(st, ret)
+                        if isinstance(ret, list):
+                            # the model that called back into the crate post-processes the result into several outcomes
+                            if len(st.frames) < depth:
+                                raise InterpError("region escaped by return in %s" % fr.body["key"])
+                            conts = self._dispatch_outcomes(st, ret, fr.dest, fr.ret_bb, caller, {"ln": None})
+                            out = []
+                            for s2 in conts:
+                                out.extend(self.run_region(s2, depth, stop_bb))
+                            return out
                     if fr.dest is not None:
                         self.write_loc(st, fr.dest[0], fr.dest[1], ret)
                     if fr.ret_bb is None:
